@@ -27,6 +27,17 @@ EXPR = {
     "int_big": "9223372036854775807",
     "int_us": "1_000",
     "float_int": "1.0",
+    "float_1e19": "1e19",
+    "float_2pow63": "9223372036854775808.0",
+    "float_below_2pow63": "9223372036854774784.0",
+    "float_1e100": "1e100",
+    "float_avogadro": "6.02214076e23",
+    "float_max": "1.7976931348623157e308",
+    "float_tiny": "1e-7",
+    "float_denormal": "5e-324",
+    "float_neg_1e19": "-1e19",
+    "int_max": "9223372036854775807",
+    "int_min_expr": "-9223372036854775807 - 1",
     "float": "2.5",
     "float_small": "0.001",
     "float_exp": "1e10",
